@@ -406,6 +406,25 @@ def fortran_line_limit(ctx, only=None):
             ctx.part("generated_files", failed_generation=1)
             continue
         for fn in sorted(os.listdir(out)):
+            # the break hints (TAB, form feed, carriage return) are directives to the writer: none may reach a written file
+            pth = os.path.join(out, fn)
+            if os.path.isfile(pth) and not fn.endswith((".json", ".log")):
+                try:
+                    text_all = open(pth, errors="replace").read()
+                except OSError:
+                    text_all = ""
+                user = 0
+                for no, raw in enumerate(text_all.split("\n"), 1):
+                    if re.search(r"splicer begin\b", raw):
+                        user += 1
+                    elif re.search(r"splicer end\b", raw):
+                        user = max(0, user - 1)
+                    if user:
+                        continue  # the user's own text
+                    if "\t" in raw or "\f" in raw or "\r" in raw:
+                        ctx.violation("hint-in-output %s:%s" % (name, fn), "%s/%s line %d contains a layout directive character (TAB / FF / CR) in the emitted text: %r" % (
+                            name, fn, no, raw[:160]), {"config": cfg, "file": fn, "line": no})
+                        break
             if not fn.endswith((".f", ".f90", ".F")):
                 continue
             nfiles += 1
